@@ -283,6 +283,6 @@ pub fn run_plan<O: PosOracle>(run: &Arc<Run>, oracle: &Arc<O>, plan: &Plan) {
                 }
             }
         });
-        run.note("call_order_pairs", json!({"pairs": pairs.len(), "what": "ordered pairs of different positions (3-man sets and the two-pawn en-passant family; for 40-bit agreements also K+Q v K+R, found on predicted keys and confirmed on the real hashes) whose library hashes agree in the low 32 / high 32 / low 16 / low 24 / xor-folded 32 / high 32 + low 8 / high 16 + low 16 bits, judged one right after the other on one thread, then up to four moves legal in both applied to the first and at once to the second: a memo inside the library keyed by a narrowed hash (and the move) answers for the wrong position"}));
+        run.note("call_order_pairs", json!({"pairs": pairs.len(), "what": "ordered pairs of different positions (3-man sets and the two-pawn en-passant family; for 40-bit agreements also K+Q v K+R, found on predicted keys and confirmed on the real hashes) whose library hashes agree in the low 32 / high 32 / low 16 / low 24 / xor-folded 32 / high 32 + low 8 / high 16 + low 16 bits / the high half of key x golden ratio, judged one right after the other on one thread, then up to four moves legal in both applied to the first and at once to the second: a memo inside the library keyed by a narrowed hash (and the move) answers for the wrong position"}));
     }
 }
